@@ -7,6 +7,7 @@ use std::io::{BufRead, Write};
 use std::panic::{catch_unwind, AssertUnwindSafe};
 
 mod ops_data;
+mod ops_acc;
 mod ops_flow;
 mod ops_registry;
 mod util;
@@ -15,6 +16,7 @@ fn dispatch(v: &Value) -> Value {
     let op = v["op"].as_str().unwrap_or("");
     match op {
         o if o.starts_with("d_") => ops_data::run(o, v),
+        "f_acc" => ops_acc::run(op, v),
         "f_registry" => ops_registry::run(op, v),
         o if o.starts_with("f_") => ops_flow::run(o, v),
         _ => json!({"r": "harness-error", "msg": format!("unknown op {op}")}),
